@@ -1,5 +1,6 @@
 (* Model/MaxWelfare.v -- executable mirror of pabutools/rules/maxwelfare.py (REPAIRED tree: empty item
-   list guard, exact efficiency [frac(profit)/weight], no [math.floor] on the bounds).
+   list guard, exact efficiency [frac(profit)/weight], no [math.floor] on the bounds, projects of negative
+   total satisfaction are not handed to the knapsack).
    Definitions only (proofs: Proofs/KnapsackP.v, Proofs/MaxWelfareP.v, Proofs/IlpCutP.v).
 
    INTERFACE (reused by C01, C13, C19)
@@ -172,7 +173,9 @@ Fixpoint pd_collect (I : inst) (score : list Q) (enum : list proj) (alloc : list
         if Qeqb (cost I p) 0 then
           if Qltb 0 profit then pd_collect I score r (alloc ++ [p]) items
           else pd_collect I score r alloc items
-        else pd_collect I score r alloc (items ++ [mkItem p (cost I p) profit])
+        else if Qleb 0 profit                                   (* elif profit >= 0: (commit 5fe03f1) *)
+             then pd_collect I score r alloc (items ++ [mkItem p (cost I p) profit])
+             else pd_collect I score r alloc items              (* negative total satisfaction: skipped *)
   end.
 
 Definition maxwelfare_pd (I : inst) (score : list Q) (enum init : list proj) : option (list proj) :=
